@@ -601,8 +601,8 @@ def write_harness(wd, insts, gates, nchunks=16):
     return {"tables": tables, "gates": gates}
 
 
-def write_main(wd, live):
-    p = os.path.join(wd, "main.cc")
+def write_main(wd, live, tag=""):
+    p = os.path.join(wd, f"main{tag}.cc")
     with open(p, "w") as f:
         f.write(HARNESS_COMMON)
         for (_, name, ch) in live:
@@ -632,7 +632,7 @@ def build_harness(wd, files, compiler, std, tag, san=True):
             objs.append(obj)
         else:
             for ins in t[2]:
-                p = os.path.join(wd, f"inst{ins['id']}.cc")
+                p = os.path.join(wd, f"inst{ins['id']}_{tag}.cc")
                 write_table(p, f"tableI{ins['id']}", [ins], files["gates"])
                 retry.append((p, f"tableI{ins['id']}", [ins]))
     for t, obj, rc, out in pmap(comp, retry):
@@ -644,7 +644,7 @@ def build_harness(wd, files, compiler, std, tag, san=True):
             failures.append({"src": t[0], "instance": t[2][0], "output": out[-3000:]})
     if not live:
         return None, failures or [{"src": "all", "output": "no table compiles"}], dead
-    mainp = write_main(wd, live)
+    mainp = write_main(wd, live, tag)
     t, obj, rc, out = comp((mainp, "main", []))
     if rc != 0:
         return None, [{"src": mainp, "output": out[-4000:]}], dead
@@ -997,12 +997,18 @@ def explore(prop, tier, seed, rng, wd):
         mwd = os.path.join(wd, "mini")
         os.makedirs(mwd, exist_ok=True)
         mini_files = (mwd, write_harness(mwd, [i for i in insts + finsts if i["id"] in mini_set], gates, nchunks=4))
+    # all builds are started at once (the machine has 16 cores; the reduced builds are small)
+    from concurrent.futures import ThreadPoolExecutor
+    pool = ThreadPoolExecutor(max_workers=len(configs))
+    builds = {}
+    for (compiler, std, tag, mini) in configs:
+        if mini:
+            builds[tag] = pool.submit(build_harness, mini_files[0], mini_files[1], compiler, std, tag, False)
+        else:
+            builds[tag] = pool.submit(build_harness, wd, files, compiler, std, tag)
     for (compiler, std, tag, mini) in configs:
         cfg = f"{compiler} -std={std}"
-        if mini:
-            exe, fails, dead = build_harness(mini_files[0], mini_files[1], compiler, std, tag, san=False)
-        else:
-            exe, fails, dead = build_harness(wd, files, compiler, std, tag)
+        exe, fails, dead = builds[tag].result()
         for fl in (fails or [])[:3]:
             violations.append({
                 "what": f"harness does not compile under {cfg}: an operation the model's policy gate admits is rejected "
